@@ -849,6 +849,10 @@ impl<'a, Traits: ?Sized + Trait, M: MemBuilder> IntoIterator for &'a mut AnyVec<
 /// [`AnyVec`]: crate::AnyVec
 /// [`AnyVec::downcast_ref`]: crate::AnyVec::downcast_ref
 pub struct AnyVecRef<'a, T: 'static, M: MemBuilder + 'a>(pub(crate) AnyVecTyped<'a, T, M>);
+// AnyVecRef is shared (and Clone) view. Like `&[T]`, it is Send only if everything behind it is Sync.
+unsafe impl<'a, T: 'static + Sync, M: MemBuilder + Sync + 'a> Send for AnyVecRef<'a, T, M>
+    where M::Mem: Sync
+{}
 impl<'a, T: 'static, M: MemBuilder + 'a> Clone for AnyVecRef<'a, T, M>{
     #[inline]
     fn clone(&self) -> Self {
